@@ -36,6 +36,8 @@ inductive V where
   | fset (xs : List V)
   | dict (es : List (V × V))     -- in insertion order
   | obj (tag : String)           -- an opaque object (plain instance, a raw T object, …)
+  | sub (cls : String) (base : V) -- an instance of the user SUBCLASS `cls` of base's builtin class
+                                 -- (dict / list / tuple / set / frozenset / str), holding base's content
   deriving Repr, Inhabited
 
 /-! ### structural equality -/
@@ -53,6 +55,7 @@ def V.beq : V → V → Bool
   | .fset a, .fset b => V.beqL a b
   | .dict a, .dict b => V.beqD a b
   | .obj a, .obj b => a == b
+  | .sub c a, .sub c' b => c == c' && V.beq a b
   | _, _ => false
 def V.beqL : List V → List V → Bool
   | [], [] => true
@@ -72,6 +75,7 @@ theorem V.beq_refl : ∀ a : V, V.beq a a = true
   | .flt _ => by simp [V.beq]
   | .str _ => by simp [V.beq]
   | .obj _ => by simp [V.beq]
+  | .sub _ a => by simp [V.beq, V.beq_refl a]
   | .list a => by simp [V.beq, V.beqL_refl a]
   | .tuple a => by simp [V.beq, V.beqL_refl a]
   | .set a => by simp [V.beq, V.beqL_refl a]
@@ -93,6 +97,9 @@ theorem V.eq_of_beq : ∀ a b : V, V.beq a b = true → a = b
   | .flt _, b => by cases b <;> simp [V.beq]
   | .str _, b => by cases b <;> simp [V.beq]
   | .obj _, b => by cases b <;> simp [V.beq]
+  | .sub c a, b => by
+      cases b <;> simp [V.beq]
+      intro h1 h2; exact ⟨h1, V.eq_of_beq a _ h2⟩
   | .list a, b => by
       cases b <;> simp [V.beq]
       exact V.eqL_of_beq a _
@@ -139,6 +146,7 @@ mutual
 def V.depth : V → Nat
   | .list a | .tuple a | .set a | .fset a => V.depthL a + 1
   | .dict a => V.depthD a + 1
+  | .sub _ b => V.depth b
   | _ => 0
 def V.depthL : List V → Nat
   | [] => 0
@@ -147,6 +155,12 @@ def V.depthD : List (V × V) → Nat
   | [] => 0
   | (a, a') :: as => max (max (V.depth a) (V.depth a')) (V.depthD as)
 end
+
+/-- the builtin value a subclass instance holds (`==`, ordering, truthiness, hashing, `len`,
+    item access are inherited: the catalogue's subclasses override nothing) -/
+def V.unsub : V → V
+  | .sub _ b => b.unsub
+  | v => v
 
 /-! ### Python `==` -/
 
@@ -168,7 +182,7 @@ def pyEqF : Nat → V → V → Bool
     match a.num2, b.num2 with
     | some x, some y => x == y
     | _, _ =>
-      match a, b with
+      match a.unsub, b.unsub with
       | .none, .none => true
       | .str x, .str y => x == y
       | .obj x, .obj y => x == y
@@ -232,7 +246,7 @@ def pyOrdF : Nat → CmpOp → V → V → Option Bool
     match a.num2, b.num2 with
     | some x, some y => some (intCmp op x y)
     | _, _ =>
-      match a, b with
+      match a.unsub, b.unsub with
       | .str x, .str y => some (strCmp op x y)
       | .list x, .list y => seqCmp pyEq (pyOrdF n op) op x y
       | .tuple x, .tuple y => seqCmp pyEq (pyOrdF n op) op x y
@@ -263,6 +277,7 @@ def truthy : V → Bool
   | .list xs | .tuple xs | .set xs | .fset xs => !xs.isEmpty
   | .dict es => !es.isEmpty
   | .obj _ => true
+  | .sub _ b => truthy b
 
 /-! #### opaque objects with a class and attributes
 
@@ -295,7 +310,7 @@ def tagHasAttr (tag : String) (a : String) : Bool :=
 def V.cls : V → String
   | .none => "NoneType" | .bool _ => "bool" | .int _ => "int" | .flt _ => "float"
   | .str _ => "str" | .list _ => "list" | .tuple _ => "tuple" | .set _ => "set"
-  | .fset _ => "frozenset" | .dict _ => "dict" | .obj tag => tagCls tag
+  | .fset _ => "frozenset" | .dict _ => "dict" | .obj tag => tagCls tag | .sub c _ => c
 
 /-- `hasattr(x, a)` as far as the catalogue of instance-dependent types looks (`label`, `flag`:
     no builtin value has them) -/
@@ -329,6 +344,7 @@ mutual
 def V.hashable : V → Bool
   | .list _ | .set _ | .dict _ => false
   | .tuple xs | .fset xs => V.hashableL xs
+  | .sub _ b => V.hashable b
   | _ => true
 def V.hashableL : List V → Bool
   | [] => true
@@ -353,7 +369,7 @@ def dictHas (es : List (V × V)) (k : V) : Bool := es.any (fun e => pyEq e.1 k)
 abbrev TExpr := List V
 
 def tStep (cur k : V) : Option V :=
-  match cur with
+  match cur.unsub with
   | .dict es => (es.find? (fun e => pyEq e.1 k)).map (·.2)
   | .list xs | .tuple xs =>
     match k with
